@@ -44,6 +44,7 @@ def build(u):
     u.spec('order.rs')
     u.spec('tokens.rs')
     u.spec('index.rs')
+    u.spec('sm_lookup.rs')
     u.spec('index_lookup.rs')
     import_method(u, T, r'SourceMap\b', 'lookup_token', 'types::SourceMap::lookup_token', 'u2_lookup.ctr', 'u2_lookup',
                   prep=lambda f: f.annotate_closure('t', 't: &RawToken', '(k: (u32, u32)) ensures k == $BODY', expect=1))
